@@ -392,10 +392,11 @@ func runProd(sc *prodScenario, rng *rand.Rand) *prodResult {
 		conf.Producer.RequiredAcks = sarama.WaitForAll
 		conf.Net.MaxOpenRequests = 1
 	}
-	oldMax := sarama.MaxRequestSize
 	if sc.MaxRequestSize > 0 {
+		// package-level setting: this process runs no further case afterwards
+		// (restoring it would race with whatever this producer left running)
 		sarama.MaxRequestSize = sc.MaxRequestSize
-		defer func() { sarama.MaxRequestSize = oldMax }()
+		restartAfterCase = true
 	}
 	mkPart := func(topic string) sarama.Partitioner {
 		var inner sarama.Partitioner
@@ -765,6 +766,10 @@ func runProd(sc *prodScenario, rng *rand.Rand) *prodResult {
 				res.inconcl = "close still progressing after 60 s"
 			}
 		}
+	}
+	if sc.SkipClose || !res.closeDone {
+		// the producer is still alive: later cases get a fresh process
+		restartAfterCase = true
 	}
 	sink.retire()
 	mu.Lock()
